@@ -1,6 +1,7 @@
 (* Receiving side of a socket, written after the Rust code:
      socket/patterns/anonymous_ingress.rs  AnonymousIngressEngine (PULL, SUB): queue + `local_cache`
      socket/dealer_socket.rs / router_socket.rs: recv / recv_multipart with `frame_recv_buffer`
+       (recv_multipart drains the buffer first)
      socket/rep_socket.rs / req_socket.rs: recv returns `payload.remove(0)` only
      socket/patterns/ready_pipe_queue.rs: a SEQUENTIAL model of ReadyPipeQueue (one caller at a time;
        interleavings of its atomic steps are the subject of C08, not of this file)
@@ -193,8 +194,8 @@ Definition anon_step (o : op) (st : astate) : astate * ev :=
   | ORecvMultipart => anon_recv_multipart st
   | OEnqueue h b => let '(q', ok) := qo_enq qo h b q in ((q', c), EvEnq ok)
   | ORegister p => let '(q', h) := qo_reg qo p q in ((q', c), EvReg h)
-  | ODeregister p => ((qo_dereg qo p q, None), EvUnit)     (* `*self.local_cache.lock() = None` *)
-  | OClose => ((qo_close qo q, None), EvUnit)              (* idem *)
+  | ODeregister p => ((qo_dereg qo p q, c), EvUnit)        (* the cache is left alone (fix of C02 finding 1) *)
+  | OClose => ((qo_close qo q, None), EvUnit)              (* `*self.local_cache.lock() = None` *)
   end.
 Fixpoint anon_run (os : list op) (st : astate) : astate * list ev :=
   match os with
@@ -222,16 +223,25 @@ Definition fbuf_recv (st : astate) : astate * ev :=
           end
       end
   end.
-(* recv_multipart never looks at frame_recv_buffer *)
+(* recv_multipart (fix of C02 finding 2): `if let Some(frames) = buffer.take() { if !frames.is_empty() {
+   rest = FrameBatch::new(); rest.extend(frames); return Ok(rest) } }`, then the queue *)
 Definition fbuf_recv_multipart (st : astate) : astate * ev :=
   let '(q, c) := st in
-  let '(q', r) := qo_pop qo q in
-  match r with
-  | None => ((q', c), EvRet RWouldBlock None)
-  | Some (p, raw) =>
-      match process p raw with
-      | Panic => ((q', c), EvRet RPanic (Some (p, raw)))
-      | Ok b => ((q', c), EvRet (RBatch (fb_list b)) (Some (p, raw)))
+  match c with
+  | Some (f :: rest) =>
+      match fb_extend fb_new (f :: rest) with
+      | Panic => ((q, None), EvRet RPanic None)
+      | Ok bt => ((q, None), EvRet (RBatch (fb_list bt)) None)
+      end
+  | _ =>
+      let '(q', r) := qo_pop qo q in
+      match r with
+      | None => ((q', None), EvRet RWouldBlock None)
+      | Some (p, raw) =>
+          match process p raw with
+          | Panic => ((q', None), EvRet RPanic (Some (p, raw)))
+          | Ok b => ((q', None), EvRet (RBatch (fb_list b)) (Some (p, raw)))
+          end
       end
   end.
 (* pipe_detached / Command::Stop only reach the AddressedIngressEngine: the buffer is left alone *)
